@@ -165,4 +165,16 @@ example : Gen.Curve.kdf_params 0x0102030405060708 [0x61, 0x62, 0x63, 0x64, 0x65,
     ([0x61, 0x62, 0x63, 0x64, 0x65, 0x66, 0x67, 0x68, 0, 0, 0, 0, 0, 0, 0, 0],
      [8, 7, 6, 5, 4, 3, 2, 1, 0, 0, 0, 0, 0, 0, 0, 0]) := by decide
 
+/-! ### the arguments `crypto_kdf_derive_from_key` hands to BLAKE2b (extracted from the source by the translator) -/
+
+/-- the digest-length argument is `subkey.len() as u8`: for every accepted length (≤ 64) it is the length itself
+(a hard-wired constant here was defect E4) -/
+theorem kdf_outlen_eq (len : Nat) (h : len ≤ 255) : Gen.Curve.kdf_outlen len = len := by
+  unfold Gen.Curve.kdf_outlen
+  omega
+
+/-- key, salt and personalisation are passed in this order: the main key as the BLAKE2b key, the subkey id block as the salt,
+the padded context as the personalisation -/
+theorem kdf_init_args_eq : Gen.Curve.kdf_init_args = ["main_key", "salt", "ctx_padded"] := rfl
+
 end DryocVerif.Proofs.GenCurve
